@@ -35,7 +35,8 @@ CHECKS = {
              "statuses of that instant (audit-trigger sequence numbers). Function level: evaluate_readiness executed "
              "symbolically over all upstream statuses, join types, thresholds and flags against an independent statement of the property. "
              "Also: crash at every commit followed by symbolic choices of what the restarted worker handles first; a backward jump from a "
-             "parallel branch nested before every statement of the join's StartStage handler (S2 over SymDB, and thorough S1 race).",
+             "parallel branch nested before every statement of the join's StartStage handler (S2 over SymDB, and thorough S1 race). "
+             "A builder that plans a fan-in among its before-stages: the monitor reads the dependencies of plan-time stages from the stage table.",
         note="Bounds: <=3 upstreams, choice depth 6 (quick) / 10 (thorough), one pre-emption; OR-join activated-branch bookkeeping across split levels "
              "and MULTI_MERGE re-firing are outside. Stubs as C01.",
         design="3/C03",
@@ -44,7 +45,8 @@ CHECKS = {
         text="Every final state reached by the delivery-schedule exploration (symbolic choices decided by z3, exhaustive to the depth "
              "bound) is checked with the quiescence predicate; determine_status and _determine_final_status are executed symbolically "
              "over all status combinations within the size bound. Workloads include failing branches next to running ones, early-firing joins "
-             "and pre-declared synthetic before / after stages (parallel ones, failing ones, a failing sibling next to a running before-stage).",
+             "and pre-declared synthetic before / after stages (parallel ones, failing ones, a failing sibling next to a running before-stage). "
+             "Operator restart of any stage before every step (also after the workflow finished) and operator pause / unpause before every pair of steps, with the same predicate (a PAUSED workflow counts as explicitly waiting).",
         note="Bounds: workloads of the fixed family, choice depth 6/10, late-message holds, <=3 tasks and <=2 synthetic stages per stage in the function "
              "lemmas; failPipeline=false (STOPPED) semantics are outside. Stubs as C01.",
         design="3/C05",
@@ -54,7 +56,8 @@ CHECKS = {
              "cancel explorations (control variables symbolic, decided by z3); each change must be in VALID_TRANSITIONS; only the re-arm "
              "(-> NOT_STARTED) written while a JumpToStage/RestartStage message is handled is exempt. Includes cancel + jump, cancel then "
              "signal on a suspended stage, pause / unpause, another worker committing while a task body runs. The table itself is checked "
-             "symbolically over all 144 pairs.",
+             "symbolically over all 144 pairs. "
+             "Operator restart of any stage before every step: the only completed -> not-completed changes are the re-arm and the re-opening of the workflow; parents with a failure policy whose before-stages finish at different times.",
         note="Bounds: workloads and depths as C01/C02; two-worker interleavings through the body-race and handler-race harnesses. Stubs as C01.",
         design="3/C06",
     ),
@@ -63,7 +66,8 @@ CHECKS = {
              "reordering; oracle = run without sweep (same final state, same executions). Crash half: for every crash commit, one sweep "
              "versus two sweeps in a row give the same final state and executions. Concurrent sweep: committed while the n-th task body runs; "
              "the whole sweep before the k-th SQL statement of a handler and one whole message handled before the k-th statement of a sweep "
-             "(real SQLite file, j and k symbolic).",
+             "(real SQLite file, j and k symbolic). "
+             "Workloads include a deferred choice whose members have downstream stages (a stage cancelled at stage level while the workflow goes on), transient retries and failing branches.",
         note="Bounds: two workers, one pre-emption; workloads of the fixed family. Stubs as C01.",
         design="3/C10",
     ),
@@ -71,7 +75,8 @@ CHECKS = {
         text="A task raising TransientError n times (n symbolic, 0..14, decoded by z3) with/without context_update at task position 1-3; "
              "oracle: executions = min(n,10)+[n<10], terminal exactly when n>=10, attempt i+1 sees the progress of attempt i; polling "
              "task keeps its saved context. A chain of n consecutive failures (n symbolic) through the real error path and the real queue round trip over SymDB; progress kept in "
-             "a list mutated in place; two failing tasks in one stage (each its own budget).",
+             "a list mutated in place; two failing tasks in one stage (each its own budget). "
+             "Recovery sweeps before every pair of steps of a task that always fails transiently: still at most the documented number of attempts.",
         note="Bounds: n<=14, <=3 tasks per stage, FIFO + 3 choice points of reordering (thorough). Backoff delays elapse on the virtual clock.",
         design="3/C14",
     ),
@@ -80,7 +85,8 @@ CHECKS = {
              "(0..13) and max_jumps in {default,0,1,3}: every re-armed stage runs once per iteration, TERMINAL exactly when the budget "
              "is spent, termination within the step bound; traversal functions executed symbolically on all DAGs with <=5 stages "
              "against a dominance oracle; ranking-function obligation discharged by z3; one step of the real JumpToStageHandler with symbolic "
-             "_jump_count / _max_jumps over SymDB; shuffled delivery of the loops (quick: 4 symbolic choices).",
+             "_jump_count / _max_jumps over SymDB; shuffled delivery of the loops (quick: 4 symbolic choices). "
+             "Operator pause / unpause before every pair of steps of a loop (exploration only: DESIGN O10).",
         note="Bounds: <=5 stages, iterations <=13, 5 choice points of reordering (thorough). Stubs as C01.",
         design="3/C15",
     ),
@@ -91,7 +97,8 @@ CHECKS = {
              "unless the work had in effect finished. Also: the worker killed at its k-th commit after the accepted cancel (k symbolic); "
              "the cancel's handlers raced at statement level against every other handler of the run (two workers, one pre-emption); stages "
              "carrying a failure policy (continue-on-failure / failPipeline=false) cancelled under reordering; one "
-             "step of RunTaskHandler / CancelWorkflowHandler from every durable state over SymDB.",
+             "step of RunTaskHandler / CancelWorkflowHandler from every durable state over SymDB. "
+             "Workloads with tasks built at plan time and builder-made before-stages are cancelled at every step as well.",
         note="Reading of 'in effect already finished': every stage complete or RUNNING with all task bodies already returned; a terminal "
              "failure produced before the cancel may win. In the statement-level race a task body entered by a RunTask handler that was "
              "already in flight when the other worker committed the cancel counts as started before it. Stubs as C01.",
@@ -103,7 +110,8 @@ CHECKS = {
              "1 + signals consumed, payload seen = payload sent, transient signal effective iff the stage was durably SUSPENDED when handled "
              "(in the statement-level race of the signal handler against the suspending RunTask: as of either reading the handler can have made). "
              "One step of SignalStageHandler / of a suspending task over SymDB with symbolic payloads. A second worker process with the default "
-             "configuration taking over after the first died between a commit and its ack.",
+             "configuration taking over after the first died between a commit and its ack. "
+             "A suspending stage behind and inside a jump loop; an operator restart of any stage after the signal: the signal is delivered to exactly one execution of the suspending task.",
         note="Bounds: one suspending stage, one or two signals, two workers with one pre-emption (three nested in the thorough tier).",
         design="3/C18",
     ),
@@ -133,7 +141,8 @@ CHECKS = {
         text="The real SqliteQueue / DLQ code executed symbolically over SymDB: deliver_at, locked_until, attempts, max_attempts, "
              "version and the clock instants are symbolic integers; two pollers (nested and sequential); ack / reschedule / extend / "
              "move-to-DLQ / sweep / replay / push with the process dying at its n-th commit against a ghost ledger of identities; one message "
-             "through solver-chosen operation sequences with symbolic time steps against a reference queue model.",
+             "through solver-chosen operation sequences with symbolic time steps against a reference queue model. "
+             "A message moved to the DLQ and replayed equals a freshly pushed one in every delivery-relevant column.",
         note="Bounds: <=2 queue rows + 1 DLQ row, 200 s time window at ms resolution, attempts <=12; queue max_attempts equals the row's "
              "(DESIGN O2); SymDB instead of SQLite (validated differentially).",
         design="3/C08",
@@ -154,7 +163,8 @@ CHECKS = {
         text="acquire_claim executed symbolically over SymDB for every owner / owner-status / steal combination; two sibling stages "
              "racing with one handler nested inside the other's read-to-write window (mutex and deferred choice); retention sweep over "
              "all execution statuses x holder-stage statuses x claim kinds; engine level: delivery schedules of the mutex and choice workloads with the retention sweep "
-             "injected before every step, audit triggers give the set of RUNNING stages per key after every commit.",
+             "injected before every step, audit triggers give the set of RUNNING stages per key after every commit. "
+             "Liveness half: the holder keeps the mutex for a symbolic number of polls (below, at and beyond the waiter's wait budget); the waiter may give up only while the holder is unfinished.",
         note="Bounds: two siblings per group, two workers, schedule depth as C02. SymDB instead of SQLite (validated differentially).",
         design="3/C11",
     ),
@@ -173,7 +183,8 @@ CHECKS = {
              "edges, cycles) against a DFS oracle, and _eval_node / evaluate_expression on every depth-2 tree over 12 leaf kinds and "
              "every node class (plus 14 unsupported constructs), executed by CrossHair; the verdict on a graph after a valid graph with the same "
              "node and edge sets was accepted in the same process; the callers' handling of a failing condition; 17 classes "
-             "of hostile text (nesting repeated up to 5000 times, lone surrogate, NUL, huge literals) at three call-stack depths.",
+             "of hostile text (nesting repeated up to 5000 times, lone surrogate, NUL, huge literals) at three call-stack depths. "
+             "Subscripts at and beyond both ends of every container kind, also behind a unary minus.",
         note="Bounds: graphs of 3 stages (4 in the thorough tier), expression depth 2 (6 root shapes at depth 3 thorough); text limited "
              "to what ast.unparse of those trees produces plus the hostile classes; ast.parse (C) is exercised concretely, not symbolically.",
         design="3/C20",
@@ -182,7 +193,8 @@ CHECKS = {
         text="Crash-free delivery schedules (symbolic choices) with event sourcing on: EventReplayer.rebuild_workflow_state versus the store "
              "after quiescence; rebuild as of every prefix length q of the event log (q symbolic) against folding exactly the events with "
              "sequence <= q; snapshot at every position p (symbolic) plus tail against the full replay; a cancel injected before every step, also followed by 4 symbolic "
-             "reorderings; loop workloads included.",
+             "reorderings; loop workloads included. "
+             "Several rebuilds on one replayer / snapshot store (snapshot at p, full rebuild, prefix q >= p, full rebuild again) must not influence each other.",
         note="Bounds: workloads of the fixed family, 2-4 choice points, logs of <=60 events; entities whose last durable status was force-written "
              "by a jump are excluded as the property says (an entity re-run through the regular steps after a re-arm is included). The solver contributes the exhaustive choice of schedule / q / p; each path is a concrete run.",
         design="3/C12",
@@ -202,7 +214,8 @@ CHECKS = {
              "and every class of MESSAGE_TYPES is covered, strings are chosen from a small set including non-ASCII and a 300-char value; "
              "the two serialisers' payloads are compared; a stored stage saved again with cleared / falsy / new values; a save rolled back by a "
              "later fault of its transaction and retried with the same object; free text that spells an enum "
-             "member or a JSON literal.",
+             "member or a JSON literal. "
+             "On the real sqlite3 + json: sibling stages with byte-identical documents of six size classes (up to 70000 characters), a loaded copy edited and dropped / saved / rejected as stale, everything read back twice through retrieve_stage and retrieve.",
         note="CPython's json itself (unicode escaping, floats, huge values) is outside: the claim is that the code passes values to json "
              "untouched and returns what json gives. SymDB instead of SQLite (validated differentially).",
         design="3/C19",
